@@ -299,6 +299,9 @@ def run(ctx):
                 ctx.holds('R-SIB', 'interop|interop-scalar', short)
             else:
                 ctx.violation('R-SIB', 'interop|interop-scalar', short, {'problem': 'serialisation order differs between SIMD and scalar-math builds', 'simd': a, 'scalar': b})
+    if ctx.tier == 'thorough':
+        from runner import run_witness
+        run_witness(ctx, ['C19'])
     ctx.extra['exhaustive'] = True
 
 
